@@ -24,7 +24,7 @@ RULE = ("kind in {none, constant, two constants, all points, only-some points, c
         "(quick) / 8 (thorough). distinct_nontrivial = distinct (kind, channel, model) cells whose overridden trajectory differs from the "
         "model's own trajectory (so that an ignored override is visible).")
 ASSUMPTIONS = ["runspec overrides are generated for SD-DSL models only (as the property states)", "values compared at 1e-9 relative on the scenario's own decimal grid"]
-REQUIRED = {"re_registrations": 20, "cells_compared": 3000, "scenarios_run": 150}
+REQUIRED = {"file_rereads": 40, "re_registrations": 20, "cells_compared": 3000, "scenarios_run": 150}
 BUDGET_S = {"quick": 110, "thorough": 1500}
 
 P1 = [[0.0, 1.0], [3.0, 4.0], [8.0, 0.5]]
@@ -365,6 +365,34 @@ def run_case(case):
                 except Exception as e:
                     res = {}
                 results.setdefault(sname + ("+batch" if sname in results else ""), res)
+        if w is None and ch in ("file1", "file2") and ("constants" in o or "points" in o):
+            # a session delivers OTHER settings to the file-defined scenario; the scenario is then read from its file again (reset_scenario), and a
+            # second engine in the same process reads the same files: both must run with the file's values
+            try:
+                other = {}
+                if "constants" in o:
+                    other["constants"] = {sorted(o["constants"])[0]: 7.75}
+                if "points" in o:
+                    other["points"] = {sorted(o["points"])[0]: [[0.0, 9.0], [5.0, 9.0]]}
+                b.begin_session(scenarios=["sc"], scenario_managers=["sm"], settings={"sm": {"sc": other}}, equations=list(names)[:2])
+                b.run_step()
+                b.end_session()
+                b.reset_scenario(scenario_manager="sm", scenario="sc")
+                dfx = b.run_scenarios(scenarios=["sc"], scenario_managers=["sm"], equations=list(names), return_format="dict")
+                eqs = dfx["sm"]["sc"]["equations"]
+                results["sc+read-from-its-file-again-after-session-settings"] = {nme: {float(t): float(v) for t, v in eqs[nme].items()} for nme in names if nme in eqs}
+                b2 = bptk()
+                try:
+                    dfx = b2.run_scenarios(scenarios=["sc"], scenario_managers=["sm"], equations=list(names), return_format="dict")
+                    eqs = dfx["sm"]["sc"]["equations"]
+                    results["sc+second-engine-reading-the-same-files"] = {nme: {float(t): float(v) for t, v in eqs[nme].items()} for nme in names if nme in eqs}
+                finally:
+                    b2.destroy()
+                counters["file_rereads"] = counters.get("file_rereads", 0) + 2
+                counters["scenarios_run"] = counters.get("scenarios_run", 0) + 2
+            except Exception as e:
+                import traceback
+                w = dict(kind="exception:" + type(e).__name__, error=traceback.format_exc()[-400:], where="re-read from file")
         if w is None and ch in ("dict", "file1") and o:
             # the scenario registered again under the same name WITHOUT its overrides: nothing of the previous definition (constants, points,
             # run specs written into its model) may survive - it must now equal the plain scenario
